@@ -22,6 +22,10 @@ claimed['C04'] = ("Every path of Parse, streaming NextBlock+Rewrite, Render unde
 claimed['C07'] = ("All paths of Parse+Render (IgnoreRaw, and raw-free documents) over the bounded inputs and one template per attribute-emission site; a strict tokenizer over the symbolic output asserts vocabulary, nesting, quoting and escaping; solver-decided.", "§C07")
 claimed['C10'] = ("All paths of Parse+Render in 36 configurations over the bounded inputs and templates; output compared byte-for-byte (solver query per comparison) with an independent reference renderer; determinism, purity (frozen heap) and the join rule asserted.", "§C10")
 claimed['C17'] = ("All paths of Parse+Render with and without each of 5 predicates over HTML templates with symbolic holes and short unconstrained inputs; alignment and WHATWG-tokenizer clauses asserted on the symbolic output.", "§C17")
+claimed['C08'] = ("All paths of the streaming parser under a symbolic read schedule (chunk sizes, empty reads, EOF-with-data are solver variables) and a symbolic fault point, over the bounded inputs; compared with in-memory Parse by deep equality; error persistence asserted.", "§C08")
+claimed['C09'] = ("All paths of Parse+Render on D and on its quoted / list-indented form (marker and width are solver variables) over the bounded inputs and multi-line templates; single-root and HTML-relation clauses on symbolic outputs.", "§C09")
+claimed['C14'] = ("All paths of Parse+Render on x and its CRLF/CR/padded/newline-terminated variants over the bounded inputs and templates; equality of outputs/positions decided by the solver.", "§C14")
+claimed['C16'] = ("All paths of stream-parsing the bounded inputs/templates and re-parsing each root block's Source alone; single block, identical tree and zero position asserted.", "§C16")
 reasons = {}
 
 checks = []
